@@ -86,6 +86,9 @@ pub fn worker_main(prop: Prop, tier: Tier, seed: u64, start: u64, stride: u64, e
     let mut i = start;
     let mut obs_all = crate::tape::FNV0;
     let mut done = 0u64;
+    // checkpoints are dense where runs are slow and few, so that a worker killed by an
+    // aborting run loses little of what it counted
+    let every: u64 = if end <= 20_000 { 16 } else { 512 };
     while i < end {
         {
             let mut o = out.lock();
@@ -122,7 +125,7 @@ pub fn worker_main(prop: Prop, tier: Tier, seed: u64, start: u64, stride: u64, e
         }
         i += stride;
         done += 1;
-        if done % 512 == 0 {
+        if done % every == 0 {
             // checkpoint: if this process dies later, the coordinator still has these counters
             let e = json!({"counters": stats.counters, "samples": stats.samples, "obs": format!("{obs_all:016x}"), "partial": true});
             let mut o = out.lock();
